@@ -8,9 +8,9 @@ import lc
 import k1_fuzz
 
 THEOREMS = 'IsoTp.Props.C06'
-RULE = ('(anomaly) clean streams of 2..20 frames with ONE anomaly injected at every frame position, 11 kinds: wrong sequence number, '
+RULE = ('(anomaly) clean streams of 2..20 frames with ONE anomaly injected at every frame position, 13 kinds: wrong sequence number, '
         'Consecutive Frame when idle, Flow Control when idle, Single Frame interruption, First Frame interruption, First Frame longer '
-        'than max_frame_size, undecodable frame, missing escape sequence, invalid First Frame RX_DL, changing RX_DL, gap beyond '
+        'than max_frame_size, undecodable frame, missing escape sequence, invalid First Frame RX_DL, changing RX_DL (to a smaller and to a larger CAN frame), wrong sequence number in a frame of another RX_DL (the sequence error wins), gap beyond '
         'rx_consecutive_frame_timeout; oracle: the documented error class is reported at that frame, the interrupted message is not '
         'delivered in whole or in part, a new SF/FF wins, a too long FF is answered by exactly one Flow Control Overflow; '
         '(recovery) random garbage histories (frames, partial messages, gaps beyond the timeouts, stop_receiving() at random points) '
@@ -19,11 +19,11 @@ RULE = ('(anomaly) clean streams of 2..20 frames with ONE anomaly injected at ev
 ASSUME = []
 
 KINDS = ['wrong_seq', 'cf_idle', 'fc_idle', 'sf_interrupt', 'ff_interrupt', 'ff_too_long', 'undecodable', 'missing_escape',
-         'bad_ff_rxdl', 'changing_rxdl', 'changing_rxdl_up', 'timeout']
+         'bad_ff_rxdl', 'changing_rxdl', 'changing_rxdl_up', 'wrong_seq_rxdl', 'timeout']
 EXPECT = {'wrong_seq': 'WrongSequenceNumberError', 'cf_idle': 'UnexpectedConsecutiveFrameError', 'fc_idle': 'UnexpectedFlowControlError',
           'sf_interrupt': 'ReceptionInterruptedWithSingleFrameError', 'ff_interrupt': 'ReceptionInterruptedWithFirstFrameError',
           'ff_too_long': 'FrameTooLongError', 'undecodable': 'InvalidCanDataError', 'missing_escape': 'MissingEscapeSequenceError',
-          'bad_ff_rxdl': 'InvalidCanFdFirstFrameRXDL', 'changing_rxdl': 'ChangingInvalidRXDLError', 'changing_rxdl_up': 'ChangingInvalidRXDLError', 'timeout': 'ConsecutiveFrameTimeoutError'}
+          'bad_ff_rxdl': 'InvalidCanFdFirstFrameRXDL', 'changing_rxdl': 'ChangingInvalidRXDLError', 'changing_rxdl_up': 'ChangingInvalidRXDLError', 'wrong_seq_rxdl': 'WrongSequenceNumberError', 'timeout': 'ConsecutiveFrameTimeoutError'}
 
 
 def anomaly_case(rng, kind, pos, inst, frames, payload, tx_dl):
@@ -71,6 +71,10 @@ def anomaly_case(rng, kind, pos, inst, frames, payload, tx_dl):
         # the expected consecutive frame in a CAN frame of the next larger size, which still cannot hold the rest of the message
         big = {8: 12, 12: 16, 16: 20, 20: 24, 24: 32, 32: 48, 48: 64}[tx_dl]
         ops.append(R(pfx + bytes([0x20 | (pos & 0xF)]) + bytes(rng.getrandbits(8) for _ in range(big - len(pfx) - 1))))
+    elif kind == 'wrong_seq_rxdl':
+        # two anomalies in one frame: the wrong sequence number in a CAN frame of another size - the sequence error wins, the reception ends
+        sn = (pos + 1) & 0xF
+        ops.append(R(pfx + bytes([0x20 | sn]) + bytes(2)) if tx_dl > 8 else R(pfx + bytes([0x20 | sn]) + bytes(11 - len(pfx))))
     elif kind == 'timeout':
         ops.append([0, 'tick', p['rx_consecutive_frame_timeout'] * 10**6 + rng.choice([1, 1000, 10**6])])
     step()
@@ -102,6 +106,10 @@ def gen_anomaly_cases(rng, quick):
             cfc = tx_dl - 1 - len(pfx)
             # only where more than 8 bytes are still to be received (otherwise a short frame legally completes the message)
             positions = [q for q in positions if n - (ffc + (q - 1) * cfc) > 8]
+        if kind == 'wrong_seq_rxdl':
+            ffc = tx_dl - 2 - len(pfx)
+            cfc = tx_dl - 1 - len(pfx)
+            positions = [q for q in positions if n - (ffc + (q - 1) * cfc) > 12]
         if kind == 'changing_rxdl_up':
             if tx_dl == 64:
                 continue
